@@ -85,11 +85,21 @@ def gen_case(rng, root):
     nodes = list(scen.walk(ch))
     for node, path in nodes:
         set_inspections(rng, node, "n%s" % "".join("%d%d" % p for p in path))
+    stepless = None
+    subs1 = [(n, p) for n, p in nodes if len(p) == 1]
+    if subs1 and rng.random() < 0.25:
+        # a delegated layout without steps: its inspections run like any other layout's
+        from harness.props import c06
+        n_, p_ = rng.choice(subs1)
+        c06.make_stepless(ch, p_)
+        stepless = p_
+        nodes = list(scen.walk(ch))
     kind = rng.choice(FAILS)
     hooks = []
     failed = None
     if kind:
-        node, path = rng.choice(nodes)
+        # (a failure of an earlier stage is injected through the steps of a layout: one that has some)
+        node, path = rng.choice([(n, p) for n, p in nodes if n.steps])
         if inject(rng, ch, node, kind, not path, hooks):
             failed = node
             # a failing sublayout must be decisive for its parent
@@ -98,7 +108,7 @@ def gen_case(rng, root):
                 pstep["threshold"] = len(pstep["links"])
         else:
             kind = None
-    desc = {"depth": depth, "fail": kind, "fail_at_root": failed is ch if failed else None,
+    desc = {"depth": depth, "fail": kind, "fail_at_root": failed is ch if failed else None, "stepless_sublayout_at": stepless,
             "inspections": {("root" if not p else "sub%s" % (p,)): [(x["ident"], x["action"]) for x in n.inspections]
                             for n, p in nodes}}
     return ch, desc, hooks, failed
@@ -136,6 +146,12 @@ def judge(log, ch, failed, any_failure_expected, accepted):
             return "an inspection ran after an earlier one failed or timed out: %s" % own
     if accepted and any_failure_expected:
         return "verification passed although a stage or an inspection failed"
+    if accepted:
+        for node, path in scen.walk(ch):
+            ids = [x["ident"] for x in node.inspections]
+            own = [x for x in log if x in ids]
+            if own != ids:
+                return "verification passed although not every inspection of every layout in the tree ran exactly once: ran %s of %s" % (own, ids)
     return None
 
 
